@@ -70,6 +70,8 @@ func routeAndPayload(r hx.T, tag int64) (string, []byte) {
 			return ty + ".h.nosuch", good
 		case "MNoGroup":
 			return ty + ".g.echo", good
+		case "MUnenc":
+			return ty + ".h.unenc", good
 		case "MBadPayload":
 			return ty + ".h.echo", []byte(`{"T":`)
 		}
